@@ -2,7 +2,7 @@
 
 `dominates` is called by contract: the calls see an arbitrary reflexive, transitive relation D on the input
 rows (C12 proves the real order is one), so the result holds for every cone, every m and every K at once.
-The number of vectors N is enumerated (quick: 1..4, thorough: 5); all values are symbolic."""
+The number of vectors N is enumerated (1..5, all in the quick tier); all values are symbolic."""
 import itertools
 
 import z3
